@@ -26,6 +26,8 @@ using namespace phosg;
 typedef Vector2<int64_t> P2;
 typedef Vector3<int64_t> P3;
 typedef Vector4<int64_t> P4;
+typedef Vector2<uint64_t> P2u;  // unsigned coordinates: differences of coordinates are not meaningful, only their order is
+typedef Vector2<uint32_t> P2w;
 // a value type whose move constructor / move assignment leave a visible mark (-777) in the source: an entry that is
 // still in the tree but was moved from shows up in every later observation
 struct MV {
@@ -50,6 +52,8 @@ typedef KDTree<P2, int64_t> T2;
 typedef KDTree<P2, MV> T2m;
 typedef KDTree<P3, int64_t> T3;
 typedef KDTree<P4, int64_t> T4;
+typedef KDTree<P2u, int64_t> T2u;
+typedef KDTree<P2w, int64_t> T2w;
 
 static string vec(const vector<long>& v) {
   string s = "[";
@@ -71,6 +75,10 @@ static string vecs(vector<vector<long>> v, bool sorted = true) {
 static vector<long> flat(const P2& p, int64_t v) { return {p.x, p.y, v}; }
 static vector<long> flat(const P3& p, int64_t v) { return {p.x, p.y, p.z, v}; }
 static vector<long> coords(const P2& p) { return {p.x, p.y}; }
+static vector<long> flat(const P2u& p, int64_t v) { return {(long)p.x, (long)p.y, v}; }
+static vector<long> coords(const P2u& p) { return {(long)p.x, (long)p.y}; }
+static vector<long> flat(const P2w& p, int64_t v) { return {(long)p.x, (long)p.y, v}; }
+static vector<long> coords(const P2w& p) { return {(long)p.x, (long)p.y}; }
 static vector<long> coords(const P3& p) { return {p.x, p.y, p.z}; }
 static vector<long> flat(const P4& p, int64_t v) { return {p.x, p.y, p.z, p.w, v}; }
 static vector<long> coords(const P4& p) { return {p.x, p.y, p.z, p.w}; }
@@ -82,6 +90,12 @@ static int64_t lc(int64_t x) { return x % g_cs == 0 ? x / g_cs + g_co : 987654; 
 static P2 R(const P2& p) { return P2(rc(p.x), rc(p.y)); }
 static P3 R(const P3& p) { return P3(rc(p.x), rc(p.y), rc(p.z)); }
 static P2 L(const P2& p) { return P2(lc(p.x), lc(p.y)); }
+// unsigned trees run on the logical coordinates themselves (small non-negative numbers: every difference b - a with
+// a > b wraps)
+static P2u R(const P2u& p) { return p; }
+static P2u L(const P2u& p) { return p; }
+static P2w R(const P2w& p) { return p; }
+static P2w L(const P2w& p) { return p; }
 static P3 L(const P3& p) { return P3(lc(p.x), lc(p.y), lc(p.z)); }
 static P4 R(const P4& p) { return P4(rc(p.x), rc(p.y), rc(p.z), rc(p.w)); }
 static P4 L(const P4& p) { return P4(lc(p.x), lc(p.y), lc(p.z), lc(p.w)); }
@@ -330,6 +344,8 @@ static void random_history(vt::Trace& tr, vt::Rng& r, int dims, int len) {
   auto rp = [&]() {
     if constexpr (std::is_same_v<P, P2>)
       return P2(r.below(side), r.below(side));
+    else if constexpr (std::is_same_v<P, P2u> || std::is_same_v<P, P2w>)
+      return P(r.below(side), r.below(side));
     else if constexpr (std::is_same_v<P, P3>)
       return P3(r.below(side), r.below(side), r.below(side));
     else  // 4-D: a small side, so that points agreeing in all but one coordinate are common
@@ -367,7 +383,7 @@ static void random_history(vt::Trace& tr, vt::Rng& r, int dims, int len) {
     } else if (c < 92) {
       P lo = rp(), hi = rp();
       if (r.chance(70)) {
-        if constexpr (std::is_same_v<P, P2>) {
+        if constexpr (std::is_same_v<P, P2> || std::is_same_v<P, P2u> || std::is_same_v<P, P2w>) {
           if (lo.x > hi.x) swap(lo.x, hi.x);
           if (lo.y > hi.y) swap(lo.y, hi.y);
           hi.x++;
@@ -434,6 +450,10 @@ int main(int argc, char** argv) {
       int len = r.chance(15) ? 300 : (int)r.range(10, 120);
       if (h % 7 == 6)
         random_history<T4, P4>(tr, r, 4, len);
+      else if (h % 7 == 5)
+        random_history<T2u, P2u>(tr, r, 2, len);
+      else if (h % 7 == 4)
+        random_history<T2w, P2w>(tr, r, 2, len);
       else if (h % 3 == 2)
         random_history<T3, P3>(tr, r, 3, len);
       else if (h % 3 == 1)
